@@ -166,16 +166,23 @@ def churn_shard(shard, nshards, seed, tier, exe, nhist):
                         continue_after = True
                     else:
                         continue_after = False
-                        cmds.append("OADD %d x%s 1 %d" % (0, k.hex(), opts))
+                        if k not in model and not (opts & CONST_KEY) and rng.random() < 0.15:
+                            # the same object through its lower-level handle: lh_table_insert on json_object_get_object(obj) with a name of the caller's making
+                            cmds.append("OLADD 0 x%s 1" % k.hex())
+                            sh.count("op.table_level.insert")
+                        else:
+                            cmds.append("OADD %d x%s 1 %d" % (0, k.hex(), opts))
                         old = model.get(k)
                         plan.append(("add", k, opts, [old] if (k in model and old is not None) else []))
                         model[k] = None if isnull else uid
                 elif r < 0.8:
-                    cmds.append("ODEL 0 x%s" % k.hex())
+                    tl = rng.random() < 0.2
+                    cmds.append(("OLDEL 0 x%s" if tl else "ODEL 0 x%s") % k.hex())
+                    present = k in model
                     old = model.pop(k, None)
-                    plan.append(("del", k, 0, [old] if old is not None else []))
+                    plan.append(("del", k, 0, [old] if old is not None else [], (0 if present else -1) if tl else None))
                 else:
-                    cmds.append("OGET 0 x%s" % k.hex())
+                    cmds.append(("OLGET 0 x%s" if rng.random() < 0.3 else "OGET 0 x%s") % k.hex())
                     plan.append(("get", k, k in model, model.get(k)))
                 if resize_at == j:
                     # the object's table is resized by hand to a size that is not a power of two (lh_table_resize is public): nothing observable may change
@@ -234,6 +241,8 @@ def churn_shard(shard, nshards, seed, tier, exe, nhist):
                     dels = [] if "del=-" in ln else [int(x) for x in ln.split("del=")[1].split(",")]
                     if k == "add" and int(ln.split()[1]) != 0:
                         key, what = "add-failed", "object_add returned %s" % ln.split()[1]
+                    elif k == "del" and len(st) > 4 and st[4] is not None and (sh.count("op.table_level.delete") or True) and int(ln.split()[1]) != st[4]:
+                        key, what = "table-level-delete-return", "lh_table_delete of %r on the object's table returned %s, model says %d" % (st[1][:20], ln.split()[1], st[4])
                     elif dels != st[3]:
                         key, what = "release/" + k, "%s of key %r released %s, model says %s" % (k, st[1][:20], dels, st[3])
                     sh.count("op." + k + (".replace" if k == "add" and st[3] else ""))
